@@ -29,12 +29,16 @@ R = Registry(
         "(which register further aggregate edges) were generated; post-update statements are emitted only by the "
         "ordered _PostUpdateAll action; every action handing states to persistence._save_obj/_delete_obj selects "
         "them at execution time on the uow.states components that remove_state_actions() (row switch) changes, "
-        "aggregate and per-object form alike."
+        "aggregate and per-object form alike; a relationship's edges and ProcessAll actions are registered on the first "
+        "presort pass whose batch of states has changes on it (deleted or saved), and the latch that suppresses the "
+        "has-changes test on later passes is set only by a pass that performed the registration."
     ),
     not_decided=(
         "the per-row sort inside one mapper (_sort_states, self-referential sort_key), joined-inheritance table "
         "order, and that the emitted statements satisfy constraints for every object graph; whether the per-object "
-        "_ProcessState actions should skip cancelled states like _ProcessAll._elements does."
+        "_ProcessState actions should skip cancelled states like _ProcessAll._elements does; that the presort loop of "
+        "_generate_actions runs to a fixpoint (every _Preprocess.execute reports the states it processed) and that "
+        "prop_has_changes() itself recognises every change."
     ),
 )
 
@@ -1267,9 +1271,10 @@ def r6(ctx):
                     f"_Preprocess.execute does not hand one local set of states to {meth}()")
         batch[kind] = cs[0].args[1].id
     ctx.require(batch["delete"] != batch["save"], "presort_deletes and presort_saves receive the same set")
+    b = {k: v for k, v in b.items() if k not in batch.values()}   # the batches are objects filled in place, not aliases of `set()`
 
     def which_batch(e) -> Optional[str]:
-        e = e if isinstance(e, ast.Name) and e.id in batch.values() else resolve_alias(f.node, e, b)
+        e = resolve_alias(f.node, e, b)
         if isinstance(e, ast.Name):
             for kind, nm in batch.items():
                 if e.id == nm:
